@@ -1119,7 +1119,7 @@ def run(ctx):
     key = trlib.to_line(t)
     if key in seen_h: continue
     seen_h.add(key)
-    cases.append([flags, 3, t]); impl_outs.append([1, 1, 1]); descr.append(dict(op='hypotheses', spec=t, spec_text=show(t)))
+    cases.append([flags, 3, t]); impl_outs.append([1, 1, 1, 1]); descr.append(dict(op='hypotheses', spec=t, spec_text=show(t)))
     nh += 1
   ctx.traces_validated = nh
   ctx.extra['theorem_hypotheses_checked_on_specs'] = nh
